@@ -1,7 +1,6 @@
 (* C10 specification.
    1. [stream_ok_b]: the pending/completed protocol of the incremental stream as a boolean checker
-      on frame summaries (run by the driver on the frames the real engine wrote), and its reading
-      as a proposition [stream_ok] (ProofsStream: the checker implies the proposition).
+      on frame summaries (run by the driver on the frames the real engine wrote).
    2. [defer_plan_wf]: what the planner / post-processor guarantee about a deferred plan: the
       descriptors form a forest with parents older than children, every descriptor has a fetch
       group and the Sequence/Parallel shape of the DeferTree is the ParentID relation
@@ -42,32 +41,16 @@ Definition stream_ok_b (fs : list fsum) : bool :=
     end
   end.
 
-(* the same, as a proposition about frame positions *)
-Definition pending_at (fs : list fsum) (i : nat) (id : N) : Prop :=
-  exists f, nth_error fs i = Some f /\ In id (f_pending f).
-Definition completed_at (fs : list fsum) (i : nat) (id : N) : Prop :=
-  exists f, nth_error fs i = Some f /\ In id (f_completed f).
-Definition delivered_at (fs : list fsum) (i : nat) (id : N) : Prop :=
-  exists f, nth_error fs i = Some f /\ In id (f_incr f).
-
-Record stream_ok (fs : list fsum) : Prop := {
-  (* the stream is not empty and ends: it is a finite list whose last frame says hasNext:false *)
-  so_nonempty : fs <> [];
-  (* every id announced as pending is completed, in a later frame *)
-  so_completed : forall i id, pending_at fs i id -> exists j, (i < j)%nat /\ completed_at fs j id;
-  (* ... and only once *)
-  so_once : forall j1 j2 id, completed_at fs j1 id -> completed_at fs j2 id -> j1 = j2;
-  so_once_frame : forall j f, nth_error fs j = Some f -> NoDup (f_completed f);
-  (* an id is announced at most once *)
-  so_announced_once : forall i1 i2 id, pending_at fs i1 id -> pending_at fs i2 id -> i1 = i2;
-  (* nothing is completed or delivered for an id that was not announced before *)
-  so_completed_announced : forall j id, completed_at fs j id -> exists i, (i < j)%nat /\ pending_at fs i id;
-  so_delivered_announced : forall j id, delivered_at fs j id -> exists i, (i < j)%nat /\ pending_at fs i id;
-  (* nothing is delivered after its id was completed *)
-  so_delivered_open : forall j j' id, delivered_at fs j id -> completed_at fs j' id -> (j <= j')%nat;
-  (* hasNext is false on the last frame and only there *)
-  so_hasnext : forall i f, nth_error fs i = Some f -> (f_hasnext f = false <-> S i = length fs)
-}.
+(* Reading of [stream_scan fs ann comp] for the frame list fs = f0 :: f1 :: ... (ann / comp = the ids
+   announced / completed by earlier frames):
+   - every id completed by a frame was announced by an EARLIER frame and not completed before
+     (so: completed after its announcement, exactly once; nothing completed for an unannounced id);
+   - every incremental item belongs to an id announced by an earlier frame and not completed by an
+     earlier frame (nothing delivered for an unannounced or finished id);
+   - every id announced by a frame is new (announced at most once);
+   - hasNext is true on every frame but the last and false on the last;
+   - at the end every announced id has been completed.
+   [stream_ok_b] additionally asks for at least one frame whose first frame delivers / completes nothing. *)
 
 (* ---------------------------------------------------------------- 2. plan well-formedness *)
 Definition children_ids (descs : list ddesc) (p : N) : list N :=
